@@ -7,14 +7,20 @@ import (
 	"fmt"
 	"io"
 	"net"
+	"os"
 	"runtime/debug"
+	"sync/atomic"
 	"time"
 
 	tls "github.com/refraction-networking/utls"
 )
 
 // IODeadline is the I/O deadline set on every harness connection.
-const IODeadline = 8 * time.Second
+// It is a watchdog only: a protocol deadlock (both sides waiting for each other) is
+// detected logically by Run (HS.Stalled), so an expiry means the machine was too slow and
+// is never evidence against the code under test (HS.TimedOut; monitors report it as
+// inconclusive).
+const IODeadline = 60 * time.Second
 
 // ClientConfig returns a fresh default client Config (fixed logical time, harness CA).
 func ClientConfig(serverName string) *tls.Config {
@@ -51,6 +57,11 @@ type HS struct {
 	EchoErr     error // non-nil if the data round trip failed
 	EchoDone    bool
 	ServerHello *tls.ClientHelloInfo // first GetConfigForClient view
+	// Stalled: during the handshake both ends were parked in Read with nothing in flight
+	// (protocol deadlock); Run then closed both transports.
+	Stalled bool
+	// TimedOut: a side returned a deadline error (the watchdog expired).
+	TimedOut bool
 }
 
 type Opts struct {
@@ -72,6 +83,9 @@ type Opts struct {
 	PostHandshake func(h *HS)
 	// Deadline overrides IODeadline for this run (0 = IODeadline).
 	Deadline time.Duration
+	// NoStallDetection disables the protocol-deadlock detector (for callers that drive
+	// additional writers during the handshake).
+	NoStallDetection bool
 }
 
 func safely(f func() error) (err error, panicked string) {
@@ -117,6 +131,36 @@ func Run(ccfg *tls.Config, id tls.ClientHelloID, scfg *tls.Config, o Opts) *HS {
 		}
 	}
 	sdone := make(chan struct{})
+	hsOver := make(chan struct{})
+	mdone := make(chan struct{})
+	var stalled atomic.Bool
+	if o.NoStallDetection {
+		close(mdone)
+	} else {
+		go func() {
+			defer close(mdone)
+			tk := time.NewTicker(3 * time.Millisecond)
+			defer tk.Stop()
+			n := 0
+			for {
+				select {
+				case <-hsOver:
+					return
+				case <-tk.C:
+					if Quiescent(c, s) {
+						if n++; n >= 5 {
+							stalled.Store(true)
+							c.Close()
+							s.Close()
+							return
+						}
+					} else {
+						n = 0
+					}
+				}
+			}
+		}()
+	}
 	go func() {
 		defer close(sdone)
 		h.ServerErr, h.ServerPanic = safely(h.Server.Handshake)
@@ -130,6 +174,10 @@ func Run(ccfg *tls.Config, id tls.ClientHelloID, scfg *tls.Config, o Opts) *HS {
 		c.Close()
 	}
 	<-sdone
+	close(hsOver)
+	<-mdone
+	h.Stalled = stalled.Load()
+	h.TimedOut = isTimeout(h.ClientErr) || isTimeout(h.ServerErr)
 	if h.ClientErr == nil && h.ServerErr == nil {
 		h.CState = h.Client.ConnectionState()
 		h.SState = h.Server.ConnectionState()
@@ -139,6 +187,7 @@ func Run(ccfg *tls.Config, id tls.ClientHelloID, scfg *tls.Config, o Opts) *HS {
 		if !o.NoEcho {
 			h.EchoErr = Echo(h.Client, h.Server, orDefault(o.EchoC2S, 17), orDefault(o.EchoS2C, 1000))
 			h.EchoDone = true
+			h.TimedOut = h.TimedOut || isTimeout(h.EchoErr)
 		}
 	}
 	h.C2S, h.S2C = tap.Snapshot()
@@ -149,6 +198,17 @@ func Run(ccfg *tls.Config, id tls.ClientHelloID, scfg *tls.Config, o Opts) *HS {
 		s.Close()
 	}
 	return h
+}
+
+func isTimeout(err error) bool {
+	if err == nil {
+		return false
+	}
+	if errors.Is(err, os.ErrDeadlineExceeded) {
+		return true
+	}
+	var ne net.Error
+	return errors.As(err, &ne) && ne.Timeout()
 }
 
 func orDefault(v, d int) int {
@@ -199,5 +259,12 @@ func (h *HS) OK() bool {
 }
 
 func (h *HS) ErrString() string {
-	return fmt.Sprintf("client=%v server=%v echo=%v", h.ClientErr, h.ServerErr, h.EchoErr)
+	extra := ""
+	if h.Stalled {
+		extra += " [protocol deadlock: both sides were waiting for each other]"
+	}
+	if h.TimedOut {
+		extra += " [harness watchdog expired]"
+	}
+	return fmt.Sprintf("client=%v server=%v echo=%v%s", h.ClientErr, h.ServerErr, h.EchoErr, extra)
 }
